@@ -464,6 +464,10 @@ def shrink(case):
             yield dict(case, n=n, bs=min(case["bs"], n + 1), tf=dict(spec, n=n))
     else:
         fr = case["frame"]
+        n = case["n"] - 1
+        if n >= 0 and all(i < n for i in (case["sampler"] or [])) and case["batch_sampler"] is None:
+            yield dict(case, n=n, bs=min(case["bs"], n + 1),
+                       frame=dict(fr, n=n, cols=[dict(c, cells=c["cells"][:n]) for c in fr["cols"]]))
         for k, c in enumerate(fr["cols"]):
             if c["name"] in ("rowid", fr["target"]):
                 continue
